@@ -367,7 +367,7 @@ theorem label_patOk_int {a : Ast} (F : SFacts a) (swTy : BasicType) (p : Prim) (
     (hcast : (match p with | .u32 => "u32" | .i32 => "i32" | .u64 => "u64" | .i64 => "i64" | _ => "") = cast)
     (l : String) (v : Nat) (hv : labelValue a l = some v) (hfit : intFits p v = true)
     (h1 : l ≠ "TRUE") (h2 : l ≠ "FALSE") (hsn : safeName l = l)
-    (hen : isEnumConst a l = true → swTy.asSafeString = cast) :
+    (hen : isEnumConst a l = true → (switchCastType a swTy).asSafeString = cast) :
     patOk a (.int p) (matcherOf a swTy l) = true := by
   simp only [matcherOf, Ast.getConst]
   cases hc : bget l a.constants with
@@ -415,7 +415,9 @@ theorem label_patOk_enum {a : Ast} (F : SFacts a) (nm : String) (e : Enum) (hb :
   have hc : bget l a.constants = some (.enumValue nm l) := by
     have := F.enumConsts nm e hb w0 hw0
     rw [hw0n'] at this; exact this
-  simp only [matcherOf, Ast.getConst, hc, patOk, enumDisc_member F hc, hsafe, beq_self_eq_true, Bool.and_self]
+  have hcast : switchCastType a (.ident nm) = .ident nm := by
+    simp [switchCastType, Ast.typedefTarget, Ast.getType, BasicType.asStr, hb]
+  simp only [matcherOf, Ast.getConst, hc, patOk, enumDisc_member F hc, hcast, hsafe, beq_self_eq_true, Bool.and_self]
 
 /-- the discriminant's type, and every label's pattern against it -/
 theorem union_patterns {a : Ast} {m : Module} (C : FitsCtx a m) (F : SFacts a) (u : Union) (hu : unionOk a u = true)
@@ -427,7 +429,7 @@ theorem union_patterns {a : Ast} {m : Module} (C : FitsCtx a m) (F : SFacts a) (
   -- the two integer kinds, once the discriminant decoder and the switch type's cast spelling are known
   have hint : ∀ (p : Prim) (cast : String), (p = .u32 ∧ cast = "u32") ∨ (p = .i32 ∧ cast = "i32") →
       (∀ l ∈ allLabels u, ∃ v, labelValue a l = some v ∧ intFits p v = true ∧ l ≠ "TRUE" ∧ l ≠ "FALSE" ∧ safeName l = l ∧
-        (isEnumConst a l = true → u.switch.varType.asSafeString = cast)) →
+        (isEnumConst a l = true → (switchCastType a u.switch.varType).asSafeString = cast)) →
       ∀ l ∈ allLabels u, patOk a (.int p) (matcherOf a u.switch.varType l) = true := by
     intro p cast hp hall l hl
     obtain ⟨v, hv, hfit, h1, h2, hsn, hen⟩ := hall l hl
@@ -435,11 +437,11 @@ theorem union_patterns {a : Ast} {m : Module} (C : FitsCtx a m) (F : SFacts a) (
     rcases hp with ⟨rfl, rfl⟩ | ⟨rfl, rfl⟩ <;> rfl
   -- facts per label for the u32 and i32 kinds
   have hu32 : discKind a u.switch.varType = .u32 → ∀ l ∈ allLabels u, ∃ v, labelValue a l = some v ∧ intFits .u32 v = true ∧
-      l ≠ "TRUE" ∧ l ≠ "FALSE" ∧ safeName l = l ∧ (isEnumConst a l = true → u.switch.varType = .u32) := by
+      l ≠ "TRUE" ∧ l ≠ "FALSE" ∧ safeName l = l ∧ (isEnumConst a l = true → (switchCastType a u.switch.varType).asSafeString = "u32") := by
     intro hkind l hl
     have h1 := hlab l hl
     simp only [hkind, labelKindOk, Bool.and_eq_true, bne_iff_ne, ne_eq, beq_iff_eq] at h1
-    simp only [labelsTypedU, hkind, List.all_eq_true, Bool.and_eq_true, Bool.or_eq_true, Bool.not_eq_true', decide_eq_true_eq] at hlt
+    simp only [labelsTypedU, hkind, List.all_eq_true, Bool.and_eq_true, Bool.or_eq_true, Bool.not_eq_true', beq_iff_eq] at hlt
     have h2 := hlt l hl
     cases hv : labelValue a l with
     | none => simp [hv] at h2
@@ -451,11 +453,11 @@ theorem union_patterns {a : Ast} {m : Module} (C : FitsCtx a m) (F : SFacts a) (
       · rw [h] at he; cases he
       · exact h
   have hi32 : discKind a u.switch.varType = .i32 → ∀ l ∈ allLabels u, ∃ v, labelValue a l = some v ∧ intFits .i32 v = true ∧
-      l ≠ "TRUE" ∧ l ≠ "FALSE" ∧ safeName l = l ∧ (isEnumConst a l = true → u.switch.varType = .i32) := by
+      l ≠ "TRUE" ∧ l ≠ "FALSE" ∧ safeName l = l ∧ (isEnumConst a l = true → (switchCastType a u.switch.varType).asSafeString = "i32") := by
     intro hkind l hl
     have h1 := hlab l hl
     simp only [hkind, labelKindOk, Bool.and_eq_true, bne_iff_ne, ne_eq, beq_iff_eq] at h1
-    simp only [labelsTypedU, hkind, List.all_eq_true, Bool.or_eq_true, Bool.not_eq_true', decide_eq_true_eq] at hlt
+    simp only [labelsTypedU, hkind, List.all_eq_true, Bool.or_eq_true, Bool.not_eq_true', beq_iff_eq] at hlt
     have h2 := hlt l hl
     cases hv : labelValue a l with
     | none => simp [hv] at h1
@@ -474,7 +476,7 @@ theorem union_patterns {a : Ast} {m : Module} (C : FitsCtx a m) (F : SFacts a) (
     rw [← hsw]
     exact hint .u32 "u32" (Or.inl ⟨rfl, rfl⟩) (fun l hl => by
       obtain ⟨v, a1, a2, a3, a4, a5, a6⟩ := hu32 hkind l hl
-      exact ⟨v, a1, a2, a3, a4, a5, fun he => by rw [a6 he]; rfl⟩)
+      exact ⟨v, a1, a2, a3, a4, a5, a6⟩)
   | .i32, hd =>
     simp only [decodeBasic, decodeBasicAlias] at hd; cases hd
     have hkind : discKind a u.switch.varType = .i32 := by rw [hsw]; rfl
@@ -482,7 +484,7 @@ theorem union_patterns {a : Ast} {m : Module} (C : FitsCtx a m) (F : SFacts a) (
     rw [← hsw]
     exact hint .i32 "i32" (Or.inr ⟨rfl, rfl⟩) (fun l hl => by
       obtain ⟨v, a1, a2, a3, a4, a5, a6⟩ := hi32 hkind l hl
-      exact ⟨v, a1, a2, a3, a4, a5, fun he => by rw [a6 he]; rfl⟩)
+      exact ⟨v, a1, a2, a3, a4, a5, a6⟩)
   | .bool, hd =>
     simp only [decodeBasic, decodeBasicAlias] at hd; cases hd
     have hkind : discKind a u.switch.varType = .bool := by rw [hsw]; rfl
@@ -532,7 +534,7 @@ theorem union_patterns {a : Ast} {m : Module} (C : FitsCtx a m) (F : SFacts a) (
           rw [← hsw]
           exact hint .u32 "u32" (Or.inl ⟨rfl, rfl⟩) (fun l hl => by
             obtain ⟨v, a1, a2, a3, a4, a5, a6⟩ := hu32 hkind l hl
-            exact ⟨v, a1, a2, a3, a4, a5, fun he => by rw [hsw] at a6; cases a6 he⟩)
+            exact ⟨v, a1, a2, a3, a4, a5, a6⟩)
         · -- typedef int n;
           have hkind : discKind a u.switch.varType = .i32 := by rw [hsw]; simp [discKind, hg]
           refine ⟨by simp [decodeBasicAlias, scrutTyOf], ?_⟩
@@ -540,7 +542,7 @@ theorem union_patterns {a : Ast} {m : Module} (C : FitsCtx a m) (F : SFacts a) (
           rw [← hsw]
           exact hint .i32 "i32" (Or.inr ⟨rfl, rfl⟩) (fun l hl => by
             obtain ⟨v, a1, a2, a3, a4, a5, a6⟩ := hi32 hkind l hl
-            exact ⟨v, a1, a2, a3, a4, a5, fun he => by rw [hsw] at a6; cases a6 he⟩)
+            exact ⟨v, a1, a2, a3, a4, a5, a6⟩)
 
 /-! ### unions: variants -/
 
